@@ -192,7 +192,15 @@ Resolve(st, op, e) ==
                 IF k > Len(brokers) THEN stx
                 ELSE LET b == brokers[k]
                          idx == SelectSeq([j \in DOMAIN o.pl |-> j], LAMBDA j : leaders[j] = b)
-                         tps == [j \in DOMAIN idx |-> o.pl[idx[j]]]
+                         tps0 == [j \in DOMAIN idx |-> o.pl[idx[j]]]
+                         \* (the request groups its partitions by topic, topics in order of first appearance)
+                         tn0 == [j \in DOMAIN tps0 |-> tps0[j][1]]
+                         firsts == SelectSeq([j \in DOMAIN tn0 |-> j], LAMBDA j : FirstIndex(tn0, tn0[j]) = j)
+                         tnames == [j \in DOMAIN firsts |-> tn0[firsts[j]]]
+                         RECURSIVE ByTopic(_)
+                         ByTopic(k2) == IF k2 > Len(tnames) THEN <<>>
+                                        ELSE SelectSeq(tps0, LAMBDA tp : tp[1] = tnames[k2]) \o ByTopic(k2 + 1)
+                         tps == ByTopic(1)
                          r == Len(stx.s.reqs) + 1
                          st1 == St([stx.s EXCEPT !.ops[op].subs = Append(@, r)], stx.out, stx.sig)
                      IN Each(Issue(st1, op, "produce", b, tps, <<>>, o.acks # 0), k + 1)
